@@ -5,7 +5,10 @@ package eventbus
 import (
 	"context"
 	"errors"
+	"os"
+	"strings"
 	"testing"
+	"time"
 )
 
 type verifC12Event struct{ N int }
@@ -54,4 +57,75 @@ func TestVerifReplayC12(t *testing.T) {
 	if after < saved {
 		t.Errorf("saved offset moved backwards: %q -> %q", saved, after)
 	}
+}
+
+// ---- C12.live.own: the live wrapper saves the bus-wide last offset, which can be ahead of an event this subscription has not been given yet
+type c12liveEv struct{ N int }
+
+// Two concurrent publishers.  Publisher B's event (2) is persisted but B is still
+// inside an earlier synchronous handler, so the resumable subscription has not
+// been given event 2 yet.  Publisher A's event (1) finishes in the subscription,
+// which saves the bus-wide last offset (2).  The process "dies".  After the
+// restart the subscription resumes after offset 2: event 2 is never delivered.
+func TestVerifReplayC12LiveOwn(t *testing.T) {
+	if ob := os.Getenv("VERIF_OBLIGATION"); ob != "" && !strings.Contains(ob, "C12.live.own") {
+		t.Skip("scenario of C12.live.own")
+	}
+	store := NewMemoryStore()
+	ctx := context.Background()
+	bus := New(WithStore(store))
+	gate := make(chan struct{})
+	inGate := make(chan struct{}, 2)
+	// an ordinary handler registered BEFORE the resumable subscription: it parks event 2
+	Subscribe(bus, func(e c12liveEv) {
+		if e.N == 2 {
+			inGate <- struct{}{}
+			<-gate
+		}
+	})
+	var got1 []int
+	if err := SubscribeWithReplay(ctx, bus, "sub", func(e c12liveEv) { got1 = append(got1, e.N) }); err != nil {
+		t.Fatal(err)
+	}
+	go Publish(bus, c12liveEv{2}) // persisted as offset 1, parked before the subscription sees it
+	<-inGate
+	Publish(bus, c12liveEv{1}) // persisted as offset 2, handled by the subscription, which saves the last offset
+	saved, _ := store.LoadOffset(ctx, "sub")
+	// --- crash here: event 2 (first record) was never handed to the subscription ---
+	bus2 := New(WithStore(store))
+	var got2 []int
+	if err := SubscribeWithReplay(ctx, bus2, "sub", func(e c12liveEv) { got2 = append(got2, e.N) }); err != nil {
+		t.Fatal(err)
+	}
+	close(gate)
+	time.Sleep(10 * time.Millisecond)
+	seen := map[int]bool{}
+	for _, n := range got1 {
+		seen[n] = true
+	}
+	for _, n := range got2 {
+		seen[n] = true
+	}
+	_ = saved
+	if !seen[2] && len(got2) == 0 {
+		// got1 may later receive 2 from the parked publisher of the dead process; what matters is the restarted one
+	}
+	if len(got2) == 0 && !containsInt(got1Before(got1), 2) {
+		t.Fatalf("event 2 was persisted before the crash, was not delivered to subscription %q before it (delivered %v), and is not replayed after the restart (replayed %v; saved offset %q)", "sub", got1Before(got1), got2, saved)
+	}
+}
+
+func got1Before(x []int) []int {
+	if len(x) > 1 {
+		return x[:1]
+	}
+	return x
+}
+func containsInt(x []int, n int) bool {
+	for _, v := range x {
+		if v == n {
+			return true
+		}
+	}
+	return false
 }
